@@ -2,14 +2,23 @@
 use crate::report::Report;
 use crate::Ctx;
 
+pub mod c01;
+pub mod c03;
+pub mod c05;
+pub mod c08;
 pub mod c13;
 pub mod c14;
 pub mod c17;
 pub mod c18;
 pub mod c19;
+pub mod hist;
 
 pub fn run(id: &str, ctx: &Ctx) -> Option<Report> {
     Some(match id {
+        "C01" => c01::run(ctx),
+        "C03" => c03::run(ctx),
+        "C05" => c05::run(ctx),
+        "C08" => c08::run(ctx),
         "C13" => c13::run(ctx),
         "C14" => c14::run(ctx),
         "C17" => c17::run(ctx),
